@@ -7,9 +7,10 @@ package main
 //   W  = witnesses: strings of the pattern's language read off its parse tree (every alternation
 //        branch; every loop at its minimum, one more and two more iterations; every set by its
 //        first members; one child of a concatenation varied at a time), at most maxWitness
-//   I  = for every w in W: w itself, w with one rune of padding on either / both sides, w·w,
-//        every single-rune deletion of w, every single-rune substitution of w by a letter of the
-//        small alphabet (the pattern's first letters and one foreign rune), every prefix of w
+//   I  = for every w in W (in this order): w itself; every prefix and every suffix of w; w with one
+//        rune of padding on either / both sides, w·w; every single-rune deletion of w; every
+//        single-rune substitution of w by a letter of the small alphabet (the pattern's first
+//        letters and one foreign rune)
 //
 // I is enumerated completely (up to the stated cap, which is reported). The parse tree comes from
 // the parser of the code under test; it only proposes inputs, the oracle never sees it.
@@ -315,6 +316,17 @@ func langInputs(src string, o optSet) (inputs [][]rune, witnesses int, capped bo
 	for _, w := range ws {
 		add(w)
 	}
+	// inputs that stop in the middle of the pattern, or start there
+	for _, w := range ws {
+		for i := range w {
+			add(w[:i])
+		}
+	}
+	for _, w := range ws {
+		for i := 1; i < len(w); i++ {
+			add(w[i:])
+		}
+	}
 	for _, w := range ws {
 		add(cat3(pad, w, nil))
 		add(cat3(nil, w, pad))
@@ -325,7 +337,10 @@ func langInputs(src string, o optSet) (inputs [][]rune, witnesses int, capped bo
 	for _, w := range ws {
 		for i := range w {
 			add(cat3(w[:i], nil, w[i+1:])) // deletion
-			add(w[:i])                     // prefix
+		}
+	}
+	for _, w := range ws {
+		for i := range w {
 			for _, r := range small {
 				if r != w[i] {
 					add(cat3(w[:i], []rune{r}, w[i+1:]))
@@ -433,6 +448,8 @@ func limFamily() []Pat {
 	// F. literal after a leading loop, optional chains, length bounds
 	for _, s := range []string{`a*bcd`, `[ab]*cde`, `\w+@`, `.*abc`, `\s*abc`, `[^,]*,abc`, `\d*-\d`, `a+?bcd`, `(?:a|b)*cde`, `(a*)bcd`, `[a-c]*?cab`,
 		`a?b?c?d?e?f?g?h?i?j`, `a{2,5}b{0,3}`, `(?:ab|cde){2,3}`, `a{0,3}b{2}`, `(?:a{2}){2,3}`, `(?:ab?){3}c`, `(?:a|bc){3}d`,
+		`[a-z]+(?:\s+at\s+|\s*@\s*)[a-z]*(?:\s+dot\s+|\.)[a-z]+`, `(\w+)(\s+at\s+)(\w+)(\s+dot\s+)(\w+)`, `[a-z]+\s+at\s+[a-z]+\s+dot\s+[a-z]+`, `[a-z]*?(?:\s*@\s*)[a-z]*(?:\.|dot)[a-z]+`,
+		`[ab]+(?: x | y)[ab]*(?:z |w)[ab]+`, `\w+\s+in\s+\w+\s+of\s+\w+`,
 		`\bfoo\b`, `foo\b.`, `^abc$`, `abc$`, `\Aabc\z`, `(?m)^abc$`, `(?m)abc$\n?d`} {
 		add(`%s`, s)
 	}
@@ -447,5 +464,5 @@ func limFamily() []Pat {
 	return out
 }
 
-func sprintf(f string, a ...any) string { return fmt.Sprintf(f, a...) }
+func sprintf(f string, a ...any) string   { return fmt.Sprintf(f, a...) }
 func join(xs []string, sep string) string { return strings.Join(xs, sep) }
